@@ -179,6 +179,13 @@ class Shape:
         c.append("{ int hb_ = 0, rex_ = 0, k_; for (k_ = 0; k_ < 4; k_++) { if (g_kind[k_] == S1_K_R8H) hb_ = 1; "
                  "if ((g_kind[k_] == S1_K_R8 && g_num[k_] >= 4) || (g_kind[k_] != 0 && g_num[k_] >= 8) || g_kind[k_] == S1_K_R64) rex_ = 1; } "
                  "if (g_bnum >= 8 || g_inum >= 8) rex_ = 1; ASSUME(!(hb_ && rex_)); }")
+        # open known findings (known_findings.txt): carve-outs as narrow as the confirmed failures - active only while the
+        # entry is open (macros defined in elemma.c under #ifdef KF_<id>)
+        if mem and imm and self.opds and isinstance(self.opds[0], Mem) and self.family == "alu.mi":
+            if mem.kw == "word":
+                c.append("KF_C03_MEMWORD_IMM_CARVE")
+            if not MEMFORMS[mem.form][1]:
+                c.append("KF_C03_NOBASE_IMM_CARVE")
         if self.extra_constrain:
             c.append(self.extra_constrain)
         return "\n  ".join(c)
